@@ -115,7 +115,12 @@ fn history<S: ShortGroupSignatureScheme>(em: &mut Emitter, rng: &mut Rng, suite:
                 // identifiers in mixed case; every fourth one is the case-exchanged twin of an earlier identifier
                 let id = if next_id % 4 == 3 && !holders.is_empty() {
                     let src = holders[rng.below(holders.len() as u64) as usize].id.clone();
-                    let tw: String = src.chars().map(|c| if c.is_ascii_lowercase() { c.to_ascii_uppercase() } else { c.to_ascii_lowercase() }).collect();
+                    // … or its twin with white space around it
+                    let tw: String = match next_id % 3 {
+                        0 => src.chars().map(|c| if c.is_ascii_lowercase() { c.to_ascii_uppercase() } else { c.to_ascii_lowercase() }).collect(),
+                        1 => format!("{}  ", src.trim()),
+                        _ => format!(" {}", src.trim()),
+                    };
                     if holders.iter().any(|h| h.id == tw) { format!("Hx{}-{}-{}", hist, next_id, rng.below(1 << 20)) } else { tw }
                 } else {
                     format!("{}{}-{}-{}", if next_id % 2 == 0 { "h" } else { "Holder" }, hist, next_id, rng.below(1 << 20))
@@ -285,7 +290,9 @@ fn history<S: ShortGroupSignatureScheme>(em: &mut Emitter, rng: &mut Rng, suite:
                 cands.push((format!("stale-{}-updated", k), w2, None, false));
             }
             // borrowed from another active holder
-            if let Some(o) = holders.iter().find(|o| !o.revoked && o.id != h.id) {
+            // (preferably an identifier that differs from this one only in case / surrounding white space)
+            let twin = holders.iter().find(|o| !o.revoked && o.id != h.id && o.id.trim().eq_ignore_ascii_case(h.id.trim()));
+            if let Some(o) = twin.or_else(|| holders.iter().find(|o| !o.revoked && o.id != h.id)) {
                 if let Out::Ok(w) = call(|| issuer.update_revocation_handle(RevocationClaim::from(o.id.as_str()))) {
                     cands.push(("borrowed".into(), w, Some([vcoef * (o.y + alpha).invert().unwrap(), z, z, z]), false));
                 }
